@@ -242,10 +242,13 @@ func (s *scanner) skipToEndOfComment() {
 	for {
 		if ch := s.read(); ch == '*' {
 			for {
-				if ch := s.read(); ch == '/' {
+				if ch := s.read(); ch == '/' || ch == eof {
 					return
 				}
 			}
+		} else if ch == eof {
+			// Unterminated comment: stop at the end of the input
+			return
 		}
 	}
 }
